@@ -117,4 +117,18 @@ Proof.
   - exact atr_causal.
   - exact (tr_causal NO Sb eq_refl).
 Qed.
+
+Theorem atr_calculate_idempotent (xs : list cd) (st : store) :
+  Forall (fresh NO Pa) xs -> Forall (fresh NO Sb) xs -> calculate NO Pa xs = Ok st -> calculate NO Pa st = Ok st.
+Proof.
+  intros HP HS Hr.
+  eapply (composite_calculate_idempotent NO Pa Sb) with (calcP := pure_calc NO Pa) (calcS := pure_calc NO Sb); try eassumption.
+  all: try reflexivity.
+  all: try (split; reflexivity).
+  - exact atr_pure.
+  - exact (tr_pure NO Sb eq_refl).
+  - exact atr_causal.
+  - exact (tr_causal NO Sb eq_refl).
+  - exact tr_indep.
+Qed.
 End ATR.
